@@ -1029,10 +1029,10 @@ class History:
             if m.get("err") != "nofile":
                 raise Infra(f"model batch on no file: {m}")
             return
+        if req["sel"]["kind"] == "random" and req["sel"]["own_rng"]:
+            ctx.count("batch:random:model-skipped")   # indices not observable (own generator): model cannot be run
+            return
         if req["sel"]["kind"] == "random" and exp is None:
-            if req["sel"]["own_rng"]:
-                ctx.count("batch:random:model-skipped")   # indices not observable (own generator): model cannot be run
-                return
             n = len(want["cols"][0]["vals"])
             rec = o["rec"]
             if o["outcome"] == "ok" and not self.dead and (
